@@ -324,6 +324,15 @@ SupportScaleInvariant(t, k, x, w) == SupportOfData(t, k, x, [i \in 1..Len(w) |->
 GridSupportInvariant(t, k, x, w) ==
    SupportOfData([g \in 1..Len(t) |-> 6 * t[g]], k, [i \in 1..Len(x) |-> QMul(OfInt(6), x[i])], w) = SupportOfData(t, k, x, w)
 
+(* Global state.  The statement's "reported through the return value / status, never by an unrelated  *)
+(* exception" is about every call, whatever was called before in the same process: a call therefore   *)
+(* leaves the process-wide state its own later behaviour depends on (numpy's floating-point error     *)
+(* handling) exactly as it found it.  gs = <<divide, over, under, invalid>> observed before and after  *)
+(* a call.                                                                                             *)
+StatePreserved(before, after) == before = after
+(* a fit whose weights are not all finite has a non-finite normal matrix: it cannot answer 0 *)
+NonFiniteWeightStatuses == {-1, -2}
+
 (* ---------------- the machine ---------------- *)
 (* prob: the support problem (constant during a behaviour); bkmask: good knots; status: result of   *)
 (* the last fit (NoFit before the first); nfits: fits performed; pc_: "fitting" or "returned".      *)
